@@ -174,6 +174,8 @@ typedef struct rnode {
   struct rnode** kids; /* array members, map k,v,k,v..., chunks, tag content */
   size_t nkids, cap;
   uint64_t declared; /* declared count for definite arrays/maps (pairs) */
+  uint32_t share_of;  /* builder: 1+index of the earlier sibling whose libcbor item is reused (shared sub-item) */
+  uint32_t extra_cap; /* builder: spare preallocated slots of a definite container */
 } rnode;
 rnode* rn_new(int kind);
 void rn_add(rnode* parent, rnode* kid);
@@ -279,5 +281,11 @@ extern const char* const chain_names[CH_NKINDS];
 /* leaf: 0 scalar, 1 chunked byte string, 2 chunked text string (each one more open level).
  * open_end[k] (k = 1..levels) receives the offset just past the head that opens level k. */
 void gen_chain(int kind, size_t depth, int leaf, struct vh_buf* out, size_t* open_end);
+
+/* low-level encoders by index (C07, C10) */
+enum { E_UINT8, E_UINT16, E_UINT32, E_UINT64, E_UINT, E_NEGINT8, E_NEGINT16, E_NEGINT32, E_NEGINT64, E_NEGINT, E_BSTART, E_SSTART, E_ASTART, E_MSTART,
+       E_TAG, E_BOOL, E_NULL, E_UNDEF, E_BREAK, E_CTRL, E_IBSTART, E_ISSTART, E_IASTART, E_IMSTART, E_HALF, E_SINGLE, E_DOUBLE, E_N };
+extern const char* const enc_names[E_N];
+size_t vh_call_encoder(int e, uint64_t v, uint8_t* buf, size_t n);
 
 #endif
